@@ -447,6 +447,54 @@ theorem charsubs_complete (s : List Nat) :
 example : applySubs charsubs (applySubs charsubs [96, 96, 97, 39, 39, 45, 45, 45, 45, 39]) =
     applySubs charsubs [96, 96, 97, 39, 39, 45, 45, 45, 45, 39] := by decide
 
+/-! ## reading arguments: math mode is decided by the innermost declaring frame; scratch fragments -/
+
+/-- **Argument nesting never changes the mode**: frames without an object (`{`) and objects that leave
+    `mathMode = None` (`ArgumentContext` around every argument expansion, ordinary commands such as
+    `\hat`, `\frac`, `\sqrt`) are looked through, however many of them are stacked. -/
+theorem mathmode_transparent : ∀ (pre s : List MFrame), (∀ f ∈ pre, f = none ∨ f = some none) →
+    isMathMode (pre ++ s) = isMathMode s
+  | [], _, _ => rfl
+  | f :: pre, s, h => by
+    have ih := mathmode_transparent pre s (fun g hg => h g (by simp [hg]))
+    rcases h f (by simp) with rfl | rfl <;> simpa [isMathMode] using ih
+
+/-- **Never inside mathematics, at any argument depth**: an argument read anywhere below a frame that
+    declares math mode, through any number of transparent frames, is normalised without substitutions;
+    below a text box (`\mbox`: `mathMode = False`) inside the formula, with them. -/
+theorem args_in_math_unsubstituted (pre s : List MFrame) (h : ∀ f ∈ pre, f = none ∨ f = some none) :
+    subsAtRead (pre ++ some (some true) :: s) = false ∧ subsAtRead (pre ++ some (some false) :: s) = true := by
+  simp [subsAtRead, mathmode_transparent pre _ h, isMathMode]
+
+/-- `$\mathbf{\hat{x'}}$`: math, mathbf, ArgumentContext, hat, ArgumentContext (innermost first) -/
+example : subsAtRead [some none, some none, some none, some none, some (some true), none] = false := by decide
+
+/-- **`extend(..., setParent=False)` never re-parents** (the scratch fragments of `fullTitle` /
+    `fullTocEntry`): the receiving node gains exactly the given nodes, labels untouched, fragments
+    flattened with the caller's flag. -/
+theorem extend_noparent_untouched (c : Cont) (args : List Arg) :
+    extend c false args = args.flatMap Arg.kids := by
+  unfold extend
+  congr 1
+  funext a
+  cases a <;> simp [appendArg, Arg.kids]
+
+/-- with `setParent=True` every gained node points to the receiver (or, for a fragment receiver, to its parent) -/
+theorem extend_setparent_labels (c : Cont) (args : List Arg) : ∀ t ∈ extend c true args, t.parent = c.target := by
+  intro t ht
+  simp only [extend, List.mem_flatMap] at ht
+  obtain ⟨a, _, hta⟩ := ht
+  cases a with
+  | node x => simp [appendArg] at hta; subst hta; cases x; rfl
+  | frag p ks =>
+    simp only [appendArg, if_true, List.mem_map] at hta
+    obtain ⟨k, _, rfl⟩ := hta; cases k; rfl
+
+/-- `fullTocEntry`: scratch fragment without parent, `[ref, ' ', title]`, title = argument fragment owned by the section -/
+example : (extend { ref := .item 1, isFrag := true, parent := .unset } false
+            [.node (txt 5 [49]), .node (txt 6 [32]), .frag (.item 9) [(txt 7 [97]).setParent (.syn (.item 9) 0)]]).map (·.parent)
+          = [.unset, .unset, .syn (.item 9) 0] := by decide
+
 /-! ## the clauses together -/
 
 /-- **C07 over the model**: every clean, consistently labelled stream without nested paragraphs is parsed
